@@ -144,6 +144,41 @@ theorem cg_chem_any {g : GridShape} {h : Rat} {uv ug : Sys} {envs : List Int} {n
       some (if ∃ p ∈ (im.filterMap id).zipIdx, p.1 = (k : Int) ∧ 1 ≤ chem.getD (s * g.size + p.2) 0 then 1 else 0) :=
   cg_chem_any_aux hok hflags s k hs hk
 
+/-! ## un-coarse-graining -/
+
+/-- `uncg_even` + `uncg_dropped_zero`: for an index map of the fine grid's length with entries `-1` or below the number of
+coarse nodes, and coarse data of the announced shape, un-coarse-graining succeeds and cell `j` of sample `k`, species `s`
+receives the value of its group divided by the number of cells of that group — and exactly `0` when the cell was dropped -/
+theorem uncg_even (N ns ncg nf : Nat) (ims : List Int) (cg : List Rat)
+    (hlen : ims.length = nf) (hr : InRange ncg ims) (hcg : cg.length = N * ns * ncg) :
+    ∃ data, uncoarsegrain N ns ncg nf ims cg = .ok data ∧ data.length = N * (ns * nf) ∧
+      ∀ k s j, k < N → s < ns → ∀ hj : j < ims.length,
+        data[k * (ns * nf) + s * nf + j]? =
+          some (if ims[j] = -1 then 0
+                else cg.getD (k * (ns * ncg) + s * ncg + ims[j].toNat) 0 / (groupCount ims[j].toNat ims : Rat)) :=
+  uncg_spec N ns ncg nf ims cg hlen hr hcg
+
+theorem uncg_dropped_zero (N ns ncg nf : Nat) (ims : List Int) (cg data : List Rat)
+    (hlen : ims.length = nf) (hr : InRange ncg ims) (hcg : cg.length = N * ns * ncg)
+    (hok : uncoarsegrain N ns ncg nf ims cg = .ok data) (k s j : Nat) (hk : k < N) (hs : s < ns) (hj : j < ims.length)
+    (hdrop : ims[j] = -1) : data[k * (ns * nf) + s * nf + j]? = some 0 := by
+  obtain ⟨data', hd, _, hspec⟩ := uncg_spec N ns ncg nf ims cg hlen hr hcg
+  rw [hd] at hok; cases hok
+  rw [hspec k s j hk hs hj, if_pos hdrop]
+
+/-- the members of a (non-empty) group together receive exactly the group's value -/
+theorem uncg_group_total (N ns ncg nf : Nat) (ims : List Int) (cg data : List Rat)
+    (hlen : ims.length = nf) (hr : InRange ncg ims) (hcg : cg.length = N * ns * ncg)
+    (hok : uncoarsegrain N ns ncg nf ims cg = .ok data) (k s g : Nat) (hk : k < N) (hs : s < ns)
+    (hcount : groupCount g ims ≠ 0) :
+    ((membersOf g ims.zipIdx).map fun j => data.getD (k * (ns * nf) + s * nf + j) 0).sum =
+      cg.getD (k * (ns * ncg) + s * ncg + g) 0 :=
+  uncg_group_total_aux N ns ncg nf ims cg data hlen hr hcg hok k s g hk hs hcount
+
+/-- the members of a group are the cells mapped to it -/
+theorem members_are_the_mapped_cells (g : Nat) (ims : List Int) (j : Nat) :
+    j ∈ membersOf g ims.zipIdx ↔ ∃ h : j < ims.length, ims[j] = (g : Int) := mem_membersOf g ims j
+
 /-! ## edges -/
 
 /-- no self-loops (`i < j` on every edge) and no pair of groups twice -/
@@ -155,7 +190,6 @@ theorem cg_no_loops_no_dups {g : GridShape} {h : Rat} {uv ug : Sys} {envs : List
    code and by the correspondence of the model, and on the concrete instances below by kernel evaluation):
    * `cg_edge_iff`      : edge (g,g') ↔ g ≠ g' ∧ ∃ members sharing a face;  `cg_surface` = (#shared faces)·h²;
                           `cg_distance²` = ‖centroid g − centroid g'‖²
-   * `uncg_group_total`, `uncg_dropped_zero`, `uncg_even`
    * `identity_map`     : coarsegrain id = gridToGraph on reflecting grids
  -/
 
